@@ -1,4 +1,4 @@
-//! Solver harnesses over the real `serde_amqp` codec (C03, C04, C05, C20).
+//! Solver harnesses: decoding untrusted bytes is total (C04).
 #![allow(clippy::all, dead_code, unused_imports, unused_macros)]
 
 #[path = "../../vsrc.rs"]
@@ -8,10 +8,7 @@ pub mod vsrc;
 #[path = "../../codec_util.rs"]
 pub mod util;
 
-pub mod prim;
-pub mod strs;
-pub mod compound;
-pub mod readers;
+pub mod total;
 
 #[cfg(not(kani))]
 include!(concat!(env!("OUT_DIR"), "/registry.rs"));
